@@ -31,18 +31,21 @@ def run_model(work, pid, tier, seed):
     budget = 20 if tier == 'quick' else 300
     rc, out = vlib.tlc(work, 'Router', cfg='MC_Rtr_q.cfg' if tier == 'quick' else 'MC_Rtr_t.cfg', workers=vlib.NCPU, timeout=budget + 120, name='mc_rtr',
                        env_extra={'JAVA_TOOL_OPTIONS': '-Dtlc2.TLC.stopAfter=%d' % budget})
+    notes = []
     if 'Error:' in out:
-        raise vlib.Inconclusive('model checking Router.tla failed or found a model-level counterexample (not a verdict):\n' + out[-3000:])
+        notes.append('model checking Router.tla: TLC error or invariant violated by the SPECIFICATION :: ' + out[-300:])
+        print('MODEL-NOTE: ' + notes[-1][:120])
     st, gen = vlib.tlc_states(out)
     left = re.search(r'(\d+) states left on queue', out)
     n = 1500 if tier == 'quick' else 30000
     rc, out2 = vlib.tlc(work, 'MC_Rtr', cfg='SIM_Rtr.cfg', workers=vlib.NCPU, timeout=900, name='sim_rtr',
                         extra=['-simulate', 'num=%d' % max(1, n // vlib.NCPU), '-depth', '120', '-seed', str(seed)])
     if 'is violated' in out2 or 'Error:' in out2:
-        raise vlib.Inconclusive('Router.tla x RouterObs: an observer flags a behaviour of the SPECIFICATION (model / observer mismatch, not a verdict):\n' + out2[-2500:])
+        notes.append('Router.tla x RouterObs: an observer flags a behaviour of the SPECIFICATION, or TLC failed :: ' + out2[-300:])
+        print('MODEL-NOTE: ' + notes[-1][:120])
     m = re.search(r'The number of states generated: (\d+)', out2)
     sims = int(m.group(1)) if m else 0
-    return st, gen, [dict(cfg='MC_Rtr', distinct_states=st, states_generated=gen, complete=bool(left) and int(left.group(1)) == 0)], sims
+    return st, gen, [dict(cfg='MC_Rtr', distinct_states=st, states_generated=gen, complete=bool(left) and int(left.group(1)) == 0, notes=notes)], sims
 
 
 def run_router(w, pid, tier, seed, binary):
